@@ -521,7 +521,7 @@ func (fr *Frame) lookupLocal(name string, st *State, at *ssa.BasicBlock, phiOver
 			if o == nil || o.Name() != name {
 				continue
 			}
-			if _, isVar := o.(*types.Var); !isVar {
+			if _, isVar := o.(*types.Var); !isVar || isPkgLevel(o) {
 				continue
 			}
 			if better(b) {
@@ -1310,8 +1310,25 @@ func (fr *Frame) lookup(x *ssa.Lookup, b *ssa.BasicBlock, st *State) *State {
 	// map contents are not modelled: the result is unconstrained (typed)
 	v := fc.freshVal(x.Type(), fr.tagStr+x.Name())
 	fc.assume(sImp(fr.reach[b], fc.typingFacts(st, v)), "typing of map lookup")
+	// an empty (or nil) map yields the zero value and ok == false
+	mv := fr.val(x.X, st)
+	if kindOf(mv.T) == KRef {
+		arr := fc.maplenArr(mv.S)
+		empty := sOr(sEq(mv.S, "0"), sEq(sx("select", st.get(arr), mv.S), "0"))
+		elemT := x.Type()
+		res := v
+		if x.CommaOk && len(v.Sub) == 2 {
+			res = v.Sub[0]
+			elemT = v.Sub[0].T
+			fc.assume(sImp(sAnd(fr.reach[b], empty), sNot(v.Sub[1].S)), "lookup in an empty map reports absence")
+		}
+		if kindOf(elemT) != KStruct && kindOf(elemT) != KTuple && kindOf(elemT) != KArray {
+			env := &Env{fc: fc}
+			fc.assume(sImp(sAnd(fr.reach[b], empty), env.equal(res, fc.zeroVal(elemT))), "lookup in an empty map yields the zero value")
+		}
+	}
 	fr.vals[x] = v
-	fc.note("map contents are not modelled (lookups return unconstrained values)")
+	fc.note("map contents are not modelled beyond emptiness (lookups in non-empty maps return unconstrained values)")
 	return st
 }
 
@@ -1428,7 +1445,7 @@ func (fr *Frame) lookupExitLocal(name string, st *State) (Val, bool) {
 			if !ok || d.IsAddr || d.Object() == nil || d.Object().Name() != name {
 				continue
 			}
-			if _, isVar := d.Object().(*types.Var); !isVar {
+			if _, isVar := d.Object().(*types.Var); !isVar || isPkgLevel(d.Object()) {
 				continue
 			}
 			if found != nil && found != d.X {
@@ -1439,6 +1456,13 @@ func (fr *Frame) lookupExitLocal(name string, st *State) (Val, bool) {
 	}
 	if found != nil {
 		if v, ok := fr.vals[found]; ok {
+			// on executions that never passed the definition the variable does not exist yet: zero value
+			if in, ok := found.(ssa.Instruction); ok && in.Block() != nil {
+				if g, ok := fr.reach[in.Block()]; ok && g != "true" {
+					z := fc.zeroVal(v.T)
+					return fr.mergeVals(v.T, []Val{v, z}, []string{g, "true"}), true
+				}
+			}
 			return v, true
 		}
 	}
@@ -1549,4 +1573,8 @@ func closureWrites(mc *ssa.MakeClosure, alloc ssa.Value, depth int) bool {
 		}
 	}
 	return false
+}
+
+func isPkgLevel(o types.Object) bool {
+	return o.Pkg() != nil && o.Parent() == o.Pkg().Scope()
 }
